@@ -545,29 +545,56 @@ impl<R: Read + Seek> Seek for CompressionLayerReader<'_, R> {
 struct WriterWithCount<W: Write> {
     inner: W,
     pos: u32,
+    /// Kind of the first (non transient) error returned by `inner`, if any.
+    /// The compressor swallows the errors met while it is being closed
+    /// (`into_inner`): this is the only way to know that its last bytes
+    /// were not written
+    failed: Option<io::ErrorKind>,
 }
 
 impl<W: Write> WriterWithCount<W> {
     const fn new(inner: W) -> Self {
-        Self { inner, pos: 0 }
+        Self {
+            inner,
+            pos: 0,
+            failed: None,
+        }
     }
 
     fn into_inner(self) -> W {
         self.inner
     }
+
+    /// Error to report if a write on `inner` failed
+    fn check_failure(&self) -> io::Result<()> {
+        self.failed.map_or(Ok(()), |kind| {
+            Err(io::Error::new(
+                kind,
+                "Write error while closing a compressed block",
+            ))
+        })
+    }
 }
 
 impl<W: Write> Write for WriterWithCount<W> {
     fn write(&mut self, buf: &[u8]) -> io::Result<usize> {
-        self.inner.write(buf).inspect(|&i| {
-            match u32::try_from(i) {
-                Ok(value) => self.pos += value,
-                Err(_) => {
-                    // Handle the error explicitly
-                    let _ = io::Error::new(io::ErrorKind::InvalidData, "Integer conversion failed");
+        self.inner
+            .write(buf)
+            .inspect(|&i| {
+                match u32::try_from(i) {
+                    Ok(value) => self.pos += value,
+                    Err(_) => {
+                        // Handle the error explicitly
+                        let _ =
+                            io::Error::new(io::ErrorKind::InvalidData, "Integer conversion failed");
+                    }
                 }
-            }
-        })
+            })
+            .inspect_err(|err| {
+                if err.kind() != io::ErrorKind::Interrupted && self.failed.is_none() {
+                    self.failed = Some(err.kind());
+                }
+            })
     }
 
     fn flush(&mut self) -> io::Result<()> {
@@ -656,6 +683,7 @@ impl<'a, W: 'a + InnerWriterTrait> LayerWriter<'a, W> for CompressionLayerWriter
             CompressionLayerWriterState::Ready(inner) => inner,
             CompressionLayerWriterState::InData(written, compress) => {
                 let inner_count = compress.into_inner();
+                inner_count.check_failure()?;
                 self.compressed_sizes.push(inner_count.pos);
                 last_block_size = written;
                 inner_count.into_inner()
@@ -736,6 +764,7 @@ impl<'a, W: 'a + InnerWriterTrait> Write for CompressionLayerWriter<'a, W> {
                 }
                 if written == UNCOMPRESSED_DATA_SIZE {
                     let inner_count = compress.into_inner();
+                    inner_count.check_failure()?;
                     self.compressed_sizes.push(inner_count.pos);
                     self.state = CompressionLayerWriterState::Ready(inner_count.into_inner());
                     // Start a new block, fill it with new values!
